@@ -11,6 +11,8 @@
          | (4 mode hlines registry tables (recspec ...))            MafWriter on the parsed header, each record added
          | (5 hlines registry (mut ...) (mut ...))                  from_reader copy: mutate copy, mutate source, view both
          | (6 hlines registry (hop ...))                            header edited through the mapping API, validate() + observation after every op
+         | (7 mode rawlines registry reads)                         MafHeader.from_line_reader(LineReader(handle)), then reads x read_line()
+         | (8 hlines? registry version? annotation? sortorder? contigs?)  MafHeader.from_defaults / from_reader(reader, ...)
          | (9 case ...)                                             several cases, one reply each
    mode := () | (1) | (2) | (3)        None / Strict / Lenient / Silent
    scheme := (version annot norestr ((name cls) ...))     registry entry: columns may be elided: (version annot norestr ())
@@ -18,7 +20,7 @@
    tables := (((cls text outcome) ...) ((text int?) ...) ((cls cls) ...))
    outcome := () build failed | (invalid str? keytext? keyint?) *)
 From MafVerif Require Import lib.Base lib.Str model.RecordOps model.Validation model.Header
-  model.RecordParse model.Reader model.WriterMode.
+  model.RecordParse model.Reader model.WriterMode model.LineReader.
 
 (* ---------- table-driven column semantics ---------- *)
 Record tentry := {
@@ -440,6 +442,42 @@ Definition run_header_ops (lines : list str) (reg : list (tscheme * bool)) (ops 
   | _ => s_bad
   end.
 
+(* MafHeader.from_line_reader on LineReader(handle): the header, then the
+   reader's line_number(), peek_line() and the results of `reads` read_line() calls *)
+Fixpoint lr_reads (lr : linereader) (n : nat) : list sexp :=
+  match n with
+  | O => []
+  | S n' => let '(l, lr') := lr_read_line lr in
+            L [s_of_str l; A (lr_no lr')] :: lr_reads lr' n'
+  end.
+Definition run_line_reader (m : option mode) (handle : list str) (reg : list (tscheme * bool)) (reads : nat) : sexp :=
+  let registry := map fst reg in
+  let '(o, lr') := header_from_line_reader registry (lr_new handle) m LgRoot in
+  L [enc_out (enc_header registry) o; A (lr_no lr'); s_of_str (lr_peek lr'); L (lr_reads lr' reads)].
+
+(* MafHeader.from_defaults(...) / MafHeader.from_reader(reader, ...) *)
+Definition dec_so_arg (s : sexp) : option (so_arg) :=
+  match s with
+  | L [A 0; n] => option_map SoArgName (as_str n)
+  | L [A 1; n; own] =>
+      match as_str n, as_listof as_str own with
+      | Some n', Some own' => match so_of_name n' with Some o => Some (SoArgInst o own') | None => None end
+      | _, _ => None
+      end
+  | _ => None
+  end.
+Definition run_derive_args (src : option (list str)) (reg : list (tscheme * bool))
+           (v a : option str) (so : option so_arg) (cs : option (list str)) : sexp :=
+  let registry := map fst reg in
+  match src with
+  | None => enc_res (enc_header registry) (header_from_defaults v a so cs)
+  | Some hl =>
+      match header_from_lines registry hl (Some Silent) LgRoot with
+      | (_, Ok h) => enc_res (enc_header registry) (header_from_reader h v a so cs)
+      | _ => s_bad
+      end
+  end.
+
 Definition dispatch1 (s : sexp) : sexp :=
   match s with
   | L [A 0; m; lines; reg] =>
@@ -478,6 +516,17 @@ Definition dispatch1 (s : sexp) : sexp :=
       | Some m', Some hl', Some reg', Some tb', Some specs' =>
           if forallb (spec_complete tb') specs' then run_writer m' hl' reg' tb' specs' else s_bad
       | _, _, _, _, _ => s_bad
+      end
+  | L [A 7; m; handle; reg; A reads] =>
+      match as_mode_opt m, as_listof as_str handle, as_listof dec_scheme_e reg with
+      | Some m', Some handle', Some reg' => run_line_reader m' handle' reg' (Z.to_nat reads)
+      | _, _, _ => s_bad
+      end
+  | L [A 8; src; reg; v; a; so; cs] =>
+      match as_opt (as_listof as_str) src, as_listof dec_scheme_e reg, as_opt as_str v, as_opt as_str a,
+            as_opt dec_so_arg so, as_opt (as_listof as_str) cs with
+      | Some src', Some reg', Some v', Some a', Some so', Some cs' => run_derive_args src' reg' v' a' so' cs'
+      | _, _, _, _, _, _ => s_bad
       end
   | L [A 6; hl; reg; ops] =>
       match as_listof as_str hl, as_listof dec_scheme_e reg, as_listof dec_hop ops with
